@@ -241,6 +241,10 @@ func c04(c *Ctx) {
 	g1.Fields = spanObservable
 	le.GuardedBy(c.Run, "R1", g1)
 
+	// "calls made after End change nothing" includes a second End: the test-and-mark of End is one critical section
+	c.Rule("R10", "E1 atomic section", "in End the isRecording() test and the store to endTime are in one critical section of s.mu on every path (a concurrent or later End is a no-op: no second end time, no second export)", 1)
+	ruleEndAtomic(c, ix, le, "R10")
+
 	// R2 status precedence table
 	c.Rule("R2", "E2 decision table", "SetStatus stores the new status iff not (current code > new code) under Unset<Error<Ok; Description kept only for codes.Error", 10)
 	if fn := c.Fn(ix, "R2", "(*recordingSpan).SetStatus"); fn != nil {
